@@ -304,6 +304,14 @@ def build_unit_text(unit, xdir, specs, report):
         if fn not in report['lowered']:
             why = report['failed'].get(fn, 'not instantiated / renamed')
             raise Infra('function %s is not available in the lowered code: %s' % (fn, why))
+    # a more derived class that (now) declares the same member hides the function under contract from every caller that goes
+    # through the public type: the registered contract would be checked on code users no longer reach -> undecided, never a silent pass
+    if '__' in target:
+        member = target.split('__', 1)[1]
+        for cls in unit.get('hidden_by', []):
+            cand = cls + '__' + member
+            if cand != target and (cand in report['lowered'] or cand in report.get('failed', {})):
+                raise Infra('%s is hidden by %s, a member the registered contracts do not know: the contract of %s no longer describes what users of the public type call' % (target, cand, target))
     subst = unit.get('subst', {})
     # keep only the functions reachable from the target (and from the replaced callees' prototypes): smaller units, and a
     # change elsewhere in the headers leaves the unit text - hence its cached result - untouched
